@@ -14,6 +14,7 @@ import EasyMl.Lemmas.PartitionGrid
 import EasyMl.Lemmas.LiveView
 import EasyMl.Lemmas.MatrixEq
 import EasyMl.Lemmas.InteropNames
+import EasyMl.Lemmas.PartViews
 
 namespace EasyMl.C12
 open EasyMl EasyMl.Spec EasyMl.Fallible EasyMl.MatrixView
@@ -457,6 +458,135 @@ theorem part_write_frame (m : MatrixMeta) (hm : m.Inv) (rp cp : List Nat)
       exact ofSlices_get_mem_cells _ _ _ _ _ _ _ _ hr
     exact partition_disjoint m hm rp cp parts h k k' hk hk' hkk o hx hx'
 
+/-! ## Views over the parts of a partition -/
+
+/-- **The part leaf.**  `MExpr.part rows columns rp cp kr kc` — the `MatrixPart` at grid position
+    `(kr, kc)`, i.e. `parts[kr·(cp.len()+1) + kc]`, as a source of further views — has the size of
+    the `kr`-th row slice by the `kc`-th column slice (`0×0` when either is empty) and its index
+    `(i, j)` designates matrix cell `(r₀+i)·columns + c₀+j`.  Being an `MExpr` leaf,
+    `mview_get_eq_spec`, `mview_get_some_iff`, `mview_unchecked_eq_checked`, `cell_equations`
+    and `layout_eq_spec` hold for every composition of ranges, reversals, maps and tensor round
+    trips **over a part** as well (its `data_layout` is row-major). -/
+theorem part_leaf_cell (rows columns : Nat) (rp cp : List Nat) (kr kc i j : Nat) :
+    let r := (diffs (rp ++ [rows]) 0).getD kr (0, 0)
+    let c := (diffs (cp ++ [columns]) 0).getD kc (0, 0)
+    (MExpr.part rows columns rp cp kr kc).size = normSize r.2 c.2 ∧
+    (MExpr.part rows columns rp cp kr kc).cell i j =
+      (if i < (normSize r.2 c.2).1 ∧ j < (normSize r.2 c.2).2 then
+        some ((r.1 + i) * columns + c.1 + j) else none) ∧
+    (MExpr.part rows columns rp cp kr kc).layoutSpec = .rowMajor :=
+  ⟨rfl, rfl, rfl⟩
+
+/-- the model builds it from `partition` itself: the part the code hands out at that position
+    answers exactly these cells -/
+theorem part_leaf_is_partition_part (rows columns : Nat) (rp cp : List Nat) (kr kc : Nat)
+    (hle : (MExpr.part rows columns rp cp kr kc).LeavesOk) :
+    ∃ parts, partition ⟨rows * columns, rows, columns⟩ rp cp = .ok parts ∧
+      ∃ hk : kr * (cp.length + 1) + kc < parts.length,
+        ∀ i j, parts[kr * (cp.length + 1) + kc].get i j =
+          .ok ((MExpr.part rows columns rp cp kr kc).cell i j) :=
+  part_getter rows columns rp cp kr kc hle
+
+/-- **No view merges cells.**  Two indexes of a composition (over a matrix, a column-major source
+    or a part) that designate the same cell are the same index: a write through a view changes
+    exactly one cell of that view. -/
+theorem view_cell_injective (e : MExpr) (hle : e.LeavesOk) (i j i' j' o : Nat)
+    (h : e.cell i j = some o) (h' : e.cell i' j' = some o) : i = i' ∧ j = j' :=
+  e.cell_injective hle i j i' j' o h h'
+
+/-- **Views over different parts never alias.**  If a cell is designated by some index of a
+    composition over part `(kr, kc)` and by some index of a composition over part `(kr', kc')` of
+    the same partition, the two parts are the same part — whatever ranges, reversals and round
+    trips were stacked on either. -/
+theorem views_over_parts_never_alias (e e' : MExpr) (rows columns : Nat) (rp cp : List Nat)
+    (kr kc kr' kc' : Nat)
+    (hb : e.base = .part rows columns rp cp kr kc) (hb' : e'.base = .part rows columns rp cp kr' kc')
+    (hle : e.LeavesOk) (hle' : e'.LeavesOk) (i j i' j' o : Nat)
+    (h : e.cell i j = some o) (h' : e'.cell i' j' = some o) : kr = kr' ∧ kc = kc' := by
+  obtain ⟨a, b, hab⟩ := e.cell_in_base i j o h
+  obtain ⟨a', b', hab'⟩ := e'.cell_in_base i' j' o h'
+  rw [hb] at hab
+  rw [hb'] at hab'
+  have hl := e.leavesOk_base hle
+  have hl' := e'.leavesOk_base hle'
+  rw [hb] at hl
+  rw [hb'] at hl'
+  obtain ⟨parts, hp, hk, hget⟩ := part_getter rows columns rp cp kr kc hl
+  obtain ⟨parts', hp', hk', hget'⟩ := part_getter rows columns rp cp kr' kc' hl'
+  rw [hp] at hp'
+  simp only [Outcome.ok.injEq] at hp'
+  subst hp'
+  have hinv : MatrixMeta.Inv ⟨rows * columns, rows, columns⟩ := ⟨rfl, hl.1.1, hl.1.2.1, hl.1.2.2⟩
+  have := part_write_frame _ hinv rp cp parts hp _ _ hk hk' a b a' b' o
+    (by rw [hget, hab]) (by rw [hget', hab'])
+  exact grid_index_inj (cp.length + 1) kr kc kr' kc' (by have := hl.2.2.2; omega)
+    (by have := hl'.2.2.2; omega) this.1
+
+/-- **Write, then read, through one view.**  Over source data of the right length, writing `x`
+    at an index inside the view and reading any index of the same view gives `x` at that very
+    index and the old element everywhere else; a write at an index outside the view changes
+    nothing. -/
+theorem view_write_then_read {α : Type} (e : MExpr) (hle : e.LeavesOk) (data : List α)
+    (hd : data.length = e.dataLen) (i j i' j' : Nat) (x : α) :
+    e.read (e.write data i j x) i' j' =
+      if (i < e.size.1 ∧ j < e.size.2) ∧ i = i' ∧ j = j' then some x else e.read data i' j' := by
+  simp only [MExpr.read, MExpr.write]
+  cases hc : e.cell i j with
+  | none =>
+    have hout : ¬ (i < e.size.1 ∧ j < e.size.2) := by
+      intro hin
+      have := e.cell_some i j hin
+      rw [hc] at this; simp at this
+    simp [hout]
+  | some o =>
+    have hin : i < e.size.1 ∧ j < e.size.2 := by
+      by_contra hn
+      rw [e.cell_none i j hn] at hc; simp at hc
+    have ho : o < data.length := by rw [hd]; exact e.cell_lt hle i j o hc
+    by_cases heq : i = i' ∧ j = j'
+    · obtain ⟨rfl, rfl⟩ := heq
+      simp [hc, hin, ho]
+    · rw [if_neg (fun h => heq h.2)]
+      cases hc' : e.cell i' j' with
+      | none => rfl
+      | some o' =>
+        have hne : o ≠ o' := by
+          intro h; subst h
+          exact heq (e.cell_injective hle i j i' j' o hc hc')
+        simp [List.getElem?_set_ne hne]
+
+/-- **A write through a view over one part is invisible through every view over another part.** -/
+theorem part_view_write_frame {α : Type} (e e' : MExpr) (rows columns : Nat) (rp cp : List Nat)
+    (kr kc kr' kc' : Nat)
+    (hb : e.base = .part rows columns rp cp kr kc) (hb' : e'.base = .part rows columns rp cp kr' kc')
+    (hle : e.LeavesOk) (hle' : e'.LeavesOk) (hne : ¬ (kr = kr' ∧ kc = kc'))
+    (data : List α) (i j i' j' : Nat) (x : α) :
+    e'.read (e.write data i j x) i' j' = e'.read data i' j' := by
+  simp only [MExpr.read, MExpr.write]
+  cases hc : e.cell i j with
+  | none => rfl
+  | some o =>
+    cases hc' : e'.cell i' j' with
+    | none => rfl
+    | some o' =>
+      have hoo : o ≠ o' := by
+        intro h; subst h
+        exact hne (views_over_parts_never_alias e e' rows columns rp cp kr kc kr' kc' hb hb' hle hle'
+          i j i' j' o hc hc')
+      simp [List.getElem?_set_ne hoo]
+
+/-- Non-vacuity: a 4×5 matrix cut after rows 1, 3 and column 2; over the part at grid position
+    (1, 1) (rows 1–2, columns 2–4) a reversed range designates cell 13, which no index of a
+    view over part (1, 0) does. -/
+example :
+    let p := MExpr.part 4 5 [1, 3] [2] 1 1
+    let e := MExpr.reverse (MExpr.range p ⟨0, 2⟩ ⟨1, usizeMax⟩) true false
+    p.LeavesOk ∧ p.size = (2, 3) ∧ e.size = (2, 2) ∧ e.base = p ∧ e.cell 0 0 = some 13 ∧
+    (MExpr.part 4 5 [1, 3] [2] 1 0).cell 1 1 = some 11 ∧
+    (MExpr.part 4 5 [1, 3] [2] 2 1).size = (1, 3) ∧ (MExpr.part 4 5 [1, 3] [5] 0 1).size = (0, 0) := by
+  refine ⟨by simp only [MExpr.LeavesOk, PartitionAccepted]; decide, by decide, by decide, rfl,
+    by decide, by decide, by decide, by decide⟩
+
 /-- `partition_quadrants(row, column)` is `partition(&[row], &[column])`: four parts. -/
 theorem partition_quadrants_eq (m : MatrixMeta) (hm : m.Inv) (row column : Nat)
     (hr : row ≤ m.rows) (hc : column ≤ m.columns) :
@@ -471,6 +601,35 @@ theorem partition_quadrants_eq (m : MatrixMeta) (hm : m.Inv) (row column : Nat)
     List.flatMap_cons, List.flatMap_nil, List.map_cons, List.map_nil, List.append_nil,
     List.cons_append]
   exact ⟨_, _, _, _, rfl, rfl⟩
+
+/-- **`partition_quadrants` in full**: it returns exactly when `row ≤ rows ∧ column ≤ columns`
+    (the documented panic otherwise, raised by `check_axis`), and then the four quadrants have
+    the sizes `row × column`, `row × (columns − column)`, `(rows − row) × column`,
+    `(rows − row) × (columns − column)` — an empty one being `0×0`. -/
+theorem partition_quadrants_iff (m : MatrixMeta) (hm : m.Inv) (row column : Nat) :
+    (row ≤ m.rows ∧ column ≤ m.columns →
+      ∃ a b c d, partitionQuadrants m row column = .ok (a, b, c, d) ∧
+        (a.rows, a.columns) = normSize row column ∧
+        (b.rows, b.columns) = normSize row (m.columns - column) ∧
+        (c.rows, c.columns) = normSize (m.rows - row) column ∧
+        (d.rows, d.columns) = normSize (m.rows - row) (m.columns - column)) ∧
+    (¬ (row ≤ m.rows ∧ column ≤ m.columns) →
+      partitionQuadrants m row column = .panic .explicit) := by
+  constructor
+  · rintro ⟨hr, hc⟩
+    obtain ⟨a, b, c, d, hq, hp⟩ := partition_quadrants_eq m hm row column hr hc
+    have hs := partition_sizes m hm [row] [column] [a, b, c, d] hp
+    simp only [List.map_cons, List.map_nil, diffs, List.cons_append, List.nil_append,
+      List.flatMap_cons, List.flatMap_nil, List.append_nil, List.cons.injEq, and_true] at hs
+    exact ⟨a, b, c, d, hq, by simpa using hs.1, by simpa using hs.2.1, by simpa using hs.2.2.1,
+      by simpa using hs.2.2.2⟩
+  · intro hn
+    have hspec := partition_eq_spec m hm [row] [column]
+    simp only [partitionQuadrants, hspec, partitionSpec, axisChecked, List.all_nil, Bool.and_true]
+    by_cases hr : row ≤ m.rows
+    · have hc : ¬ column ≤ m.columns := fun hc => hn ⟨hr, hc⟩
+      simp [hr, hc]
+    · simp [hr]
 
 /-- Non-vacuity: the 2×2 quadrants of a 3×3 matrix split after row 1 and column 2. -/
 example : partition ⟨9, 3, 3⟩ [1] [2] = .ok
